@@ -275,6 +275,32 @@ fn backend<B: Backend, P: Prims>(opts: &Opts, rep: &mut Report) {
     }
     let stream = format!("c08.{}", B::NAME);
     let mut idx = 0u64;
+    // --- v1: valid keys that share their modulus (another exponent), imported back to back on this thread:
+    //     each must come back as itself - own bytes, own public half
+    if B::VER == 1 && opts.shard == 8 % opts.nshards {
+        for der in rsapool::rsa2048().iter().chain(rsapool::rsa4096().iter()) {
+            let Some(twin) = rsapool::same_modulus_other_exponent(der) else { continue };
+            let is_pke = der.len() > 2000;
+            let seq = [der.clone(), twin.clone(), der.clone(), twin.clone(), twin.clone(), der.clone()];
+            for (i, k) in seq.iter().enumerate() {
+                let kind = if is_pke { Kind::PkeSecret } else { Kind::Secret };
+                let got = guard(|| decode::<B>(kind, k));
+                let canon = rsapool::canonical_secret(k);
+                match (&got, &canon) {
+                    (Ok(Ok(enc)), Some(c)) if enc == c => {}
+                    _ => rep.violation(&format!("C08|{}|{:?}|same-modulus-key-comes-back-as-another-key", B::NAME, kind), json!({"imported": hx_short(k), "step": i, "what": "a valid key imported right after another valid key with the same modulus and a different exponent does not serialise to its own canonical DER", "got": format!("{:?}", got.as_ref().map(|r| r.as_ref().map(|e| hx_short(e)).map_err(err_kind)))})),
+                }
+                if !is_pke {
+                    if let Ok(sk) = key_from_bytes::<B, Secret>(k) {
+                        if key_bytes(&sk.public_key()) != rsapool::public_of(k) {
+                            rep.violation(&format!("C08|{}|Secret|public-key-differs-from-independent-derivation:same-modulus-sequence", B::NAME), json!({"imported": hx_short(k), "step": i}));
+                        }
+                    }
+                }
+                rep.case(&format!("{}.same-modulus-sequence", B::NAME), fnv_parts(&[k, &[i as u8]]), true);
+            }
+        }
+    }
     // --- generated valid keys of every kind
     let n = if B::VER == 1 { opts.size(60, 400) } else { opts.size(5000, 60000) };
     for _ in 0..n {
